@@ -2,7 +2,7 @@
    without user filters:  _autogen_for_tables, _compare_tables, _compare_columns, _compare_nullable,
    _compare_type (-> MigrationContext._compare_type -> DefaultImpl.compare_type, _column_types_match,
    _column_args_match), _compare_indexes_and_uniques (obj_added / obj_removed / obj_changed,
-   _ix_constraint_sig / _uq_constraint_sig comparison).  Same names, same branch structure.
+   _ix_constraint_sig / _uq_constraint_sig comparison), _compare_foreign_keys.  Same names, same branch structure.
    Python iterates several name *sets* (hash order) and sorted name lists; the model walks the lists of the
    schema instead, and the correspondence compares operation lists as multisets.  No proofs here. *)
 From AV Require Export Model.Schema.
@@ -28,6 +28,33 @@ Definition impl_compare_type (insp meta:ty) : bool :=
 Definition ctx_compare_type (c:cfg) (insp meta:ty) : bool :=
   if negb (compare_type c) then false else impl_compare_type insp meta.
 
+(* ---------------------------------------------------------------- ddl/sqlite.py: compare_server_default *)
+(* re.sub of ^\((.+)\)$ by \1 *)
+Definition strip_parens (s:list N) : list N := if wrapped ch_lpar ch_rpar s then unwrap s else s.
+(* re.sub of ^\"?'(.+)'\"?$ by \1 : an optional double quote, a quote, a greedy non-empty middle, a quote, an optional
+   double quote.  Greedy matching makes the closing quote the last character, or the last but one before a double quote. *)
+Definition strip_quotes (s:list N) : list N :=
+  let rest := match s with
+              | x :: y :: r => if N.eqb x ch_dquote && N.eqb y ch_quote then Some r
+                               else if N.eqb x ch_quote then Some (y :: r) else None
+              | _ => None
+              end in
+  match rest with
+  | None => s
+  | Some r => if N.eqb (last r 0%N) ch_quote
+              then match removelast r with [] => s | mid => mid end
+              else if N.eqb (last r 0%N) ch_dquote && N.eqb (last (removelast r) 0%N) ch_quote
+                   then match removelast (removelast r) with [] => s | mid => mid end
+                   else s
+  end.
+Definition norm_default (s:list N) : list N := strip_quotes (strip_parens s).
+(* SQLiteImpl.compare_server_default(rendered_inspector_default, rendered_metadata_default): True if different *)
+Definition sqlite_compare_server_default (insp meta:option (list N)) : bool :=
+  negb (opt_eqb (list_eqb N.eqb) (option_map norm_default insp) (option_map norm_default meta)).
+(* MigrationContext._compare_server_default *)
+Definition ctx_compare_server_default (c:cfg) (insp meta:option (list N)) : bool :=
+  if negb (compare_server_default c) then false else sqlite_compare_server_default insp meta.
+
 (* ---------------------------------------------------------------- column comparators *)
 (* _compare_nullable: modify_nullable := metadata value when they differ *)
 Definition compare_nullable (conn meta:col) : option bool :=
@@ -36,13 +63,25 @@ Definition compare_nullable (conn meta:col) : option bool :=
 Definition compare_type_col (c:cfg) (conn meta:col) : option ty :=
   if ctx_compare_type c (c_ty conn) (c_ty meta) then Some (c_ty meta) else None.
 
+(* _compare_server_default: nothing when both sides have no default; otherwise existing_server_default := the reflected
+   default and modify_server_default := the metadata default when the context says they differ.
+   _render_server_default_for_compare gives the str argument / the text of the clause: d_txt *)
+Definition compare_server_default_col (c:cfg) (conn meta:col) : option (option dflt) :=
+  match c_default conn, c_default meta with
+  | None, None => None
+  | cd, md => if ctx_compare_server_default c (option_map d_txt cd) (option_map d_txt md) then Some md else None
+  end.
+Definition existing_server_default (conn meta:col) : option dflt :=
+  match c_default conn, c_default meta with None, None => None | cd, _ => cd end.
+
 (* the AlterColumnOp built in _compare_columns; appended only if has_changes() *)
 Definition alter_column (c:cfg) (tn:N) (conn meta:col) : list op :=
   let mn := compare_nullable conn meta in
   let mt := compare_type_col c conn meta in
-  match mn, mt with
-  | None, None => []
-  | _, _ => [OpAlterColumn tn (c_name meta) (c_null conn) (c_ty conn) mn mt]
+  let md := compare_server_default_col c conn meta in
+  match mn, mt, md with
+  | None, None, None => []
+  | _, _, _ => [OpAlterColumn tn (c_name meta) (c_null conn) (c_ty conn) (existing_server_default conn meta) mn mt md]
   end.
 
 (* _compare_columns, the part before `yield`: added columns, then altered columns (metadata order) *)
@@ -104,10 +143,27 @@ Definition compare_indexes_and_uniques (tn:N) (conn_table metadata_table:option 
   ++ flat_map (fun mk => if memN (k_name mk) (keys k_name conn_cons) then []
                          else obj_added tn supports_unique_constraints cod mk) metadata_cons.
 
-(* ---------------------------------------------------------------- _compare_tables *)
-(* CreateTableOp.from_table carries the columns and the inline UNIQUE constraints; indexes follow *)
-Definition create_table_of (m:table) : table := mkTable (t_name m) (t_cols m) (filter is_uq (t_cons m)).
+(* ---------------------------------------------------------------- _compare_foreign_keys *)
+(* _fk_constraint_sig.unnamed: (source table, source columns, target table, target columns) + options; the source table is
+   the same on both sides and there are no options in this universe (SQLite reports an "options" key, so the
+   with-options signature is the one compared; all options are None / "not deferrable" on both sides) *)
+Definition fk_sig_eqb (a b:fk) : bool :=
+  list_eqb N.eqb (f_cols a) (f_cols b) && N.eqb (f_rtable a) (f_rtable b) && list_eqb N.eqb (f_rcols a) (f_rcols b).
+Definition compare_foreign_keys (tn:N) (conn_table metadata_table:option table) : list op :=
+  match conn_table, metadata_table with
+  | Some c, Some m =>
+      (* removed signatures: DropConstraintOp by name *)
+      flat_map (fun cf => if existsb (fk_sig_eqb cf) (t_fks m) then [] else [OpDropFk tn (f_name cf)]) (t_fks c)
+      (* added signatures *)
+      ++ flat_map (fun mf => if existsb (fk_sig_eqb mf) (t_fks c) then [] else [OpAddFk tn mf]) (t_fks m)
+  | _, _ => []                  (* CREATE TABLE / DROP TABLE: foreign keys are inline *)
+  end.
 
+(* ---------------------------------------------------------------- _compare_tables *)
+(* CreateTableOp.from_table carries the columns, the inline UNIQUE constraints and the foreign keys; indexes follow *)
+Definition create_table_of (m:table) : table := mkTable (t_name m) (t_cols m) (filter is_uq (t_cons m)) (t_fks m).
+
+(* (_compare_foreign_keys is dispatched for added and removed tables too and returns at once: conn_table or metadata_table is None) *)
 Definition added_table (m:table) : list op :=
   OpCreateTable (create_table_of m) :: compare_indexes_and_uniques (t_name m) None (Some m).
 Definition removed_table (c:table) : list op :=
@@ -115,6 +171,7 @@ Definition removed_table (c:table) : list op :=
 Definition existing_table (g:cfg) (c m:table) : list op :=
   compare_columns_pre g (t_name m) c m
   ++ compare_indexes_and_uniques (t_name m) (Some c) (Some m)
+  ++ compare_foreign_keys (t_name m) (Some c) (Some m)
   ++ compare_columns_post (t_name m) c m.
 
 Definition compare_tables (g:cfg) (conn meta:schema) : list op :=
